@@ -81,13 +81,22 @@ def isOver (s : Src) : Bool := s.isEmpty
 
 /-- `advance_until_closing_brace()`: character-level brace matching; returns the inner text
     and the text from the closing brace on -/
-def untilClosingBrace : Src → Nat → List Char → List Char × Src
-  | [], _, acc => (acc.reverse, [])
-  | c :: cs, nesting, acc =>
-    if c == '{' then untilClosingBrace cs (nesting + 1) (c :: acc)
+def untilClosingBraceAux : Nat → Src → Nat → List Char → List Char × Src
+  | 0, s, _, acc => (acc.reverse, s)
+  | _ + 1, [], _, acc => (acc.reverse, [])
+  | fuel + 1, c :: cs, nesting, acc =>
+    -- braces inside comments and string literals do not count (finding F64, repaired)
+    if (c == ';' || c == '"') && ((decideNextToken (c :: cs)).1 == .Comment || (decideNextToken (c :: cs)).1 == .String) then
+      let n := (decideNextToken (c :: cs)).2
+      let n := if n == 0 then 1 else n
+      untilClosingBraceAux fuel ((c :: cs).drop n) nesting (((c :: cs).take n).reverse ++ acc)
+    else if c == '{' then untilClosingBraceAux fuel cs (nesting + 1) (c :: acc)
     else if c == '}' then
-      if nesting == 0 then (acc.reverse, c :: cs) else untilClosingBrace cs (nesting - 1) (c :: acc)
-    else untilClosingBrace cs nesting (c :: acc)
+      if nesting == 0 then (acc.reverse, c :: cs) else untilClosingBraceAux fuel cs (nesting - 1) (c :: acc)
+    else untilClosingBraceAux fuel cs nesting (c :: acc)
+
+def untilClosingBrace (s : Src) (nesting : Nat) (acc : List Char) : List Char × Src :=
+  untilClosingBraceAux (s.length + 1) s nesting acc
 
 /-- `advance_until_linebreak()`: token-level, braces nest; returns the line (up to the end
     of its last non-ignorable token) and the rest (from the line break / closing brace on) -/
